@@ -112,7 +112,7 @@ ODD = ['', '38', '38;5', '38;2;1;2', '48;7', '300', '38;5;256', '1:2', '?1', ' 1
 def strat_tokens():
     code = gen.weighted((14, st.sampled_from(CODES)), (1, st.sampled_from(ODD)))
     body = st.lists(code, max_size=5).map(';'.join)
-    txt = gen.texts(0, 4, esc=False) | st.sampled_from(['[', '\x1b', 'm', '[1m', '\x1bm', 'é\n', '\x1b]0;t\x07'])
+    txt = gen.texts(0, 4, esc=False) | st.sampled_from(['[', '\x1b', 'm', '[1m', '\x1bm', 'é\n', '\x1b]0;t\x07', '\x9b31m', '\x9b', 'a\x9b1;4mb'])
     csi = st.tuples(st.text(alphabet='0123456789;?', max_size=4), st.sampled_from(list('AHJKm~@'))).map(lambda t: '\x1b[' + t[0] + t[1])
     tok = gen.weighted((3, txt), (5, body.map(lambda b: '\x1b[' + b + 'm')), (1, csi))
     tail = gen.weighted((4, st.just('')), (1, st.text(alphabet='0123456789;', max_size=4).map(lambda b: '\x1b[' + b)))
@@ -121,7 +121,7 @@ def strat_tokens():
 
 def strat_free():
     alpha = ['\x1b[', '\x1b[', '\x1b[', '\x1b', '[', '0', '1', '2', '3', '4', '5', '8', ';', ';', ';', 'm', 'm', 'm', 'm', 'A', 'H', 'x', 'é', 'a', 'b',
-             '38;5;', '48;2;1;2;', '58;5;9', '22', '39', '31', '1;', ';4', ':', '?', ' ', '-', '+', '\u00b2', '\u0663']
+             '38;5;', '48;2;1;2;', '58;5;9', '22', '39', '31', '1;', ';4', ':', '?', ' ', '-', '+', '\u00b2', '\u0663', '\x9b', '\x9b']
     return st.lists(st.sampled_from(alpha), max_size=30).map(lambda l: {'s': ''.join(l)})
 
 
